@@ -328,14 +328,36 @@ impl World {
             if case.raw.is_some() && b.side == 1 {
                 continue;
             }
-            let (log, m) = (log.clone(), muxes[b.side].clone().unwrap());
+            let (log, m, parking, cancel) = (log.clone(), muxes[b.side].clone().unwrap(), parking.clone(), case.bind_cancel);
             sp.spawn(format!("bind{idx}"), TaskKind::MuxUser(b.side), async move {
                 for _ in 0..b.delay {
                     yield_once().await;
                 }
                 let mut host = format!("b{idx}.").into_bytes();
                 host.extend_from_slice(&b.host);
-                let r = m.request_bind(&host, b.port, if b.dgram { BindType::Datagram } else { BindType::Stream }).await;
+                let btype = if b.dgram { BindType::Datagram } else { BindType::Stream };
+                let r = match cancel {
+                    None => m.request_bind(&host, b.port, btype).await,
+                    Some(n) => {
+                        // the caller gives up when Wake(n) fires before the request resolved
+                        let mut fut = std::pin::pin!(m.request_bind(&host, b.port, btype));
+                        let mut stop = std::pin::pin!(parking.park(n));
+                        let raced = std::future::poll_fn(|cx| {
+                            if stop.as_mut().poll(cx).is_ready() {
+                                return std::task::Poll::Ready(None);
+                            }
+                            fut.as_mut().poll(cx).map(Some)
+                        })
+                        .await;
+                        match raced {
+                            Some(r) => r,
+                            None => {
+                                log.app(AppEv::Note(format!("bind {idx} cancelled by its caller")));
+                                return;
+                            }
+                        }
+                    }
+                };
                 drop(m);
                 log.app(AppEv::BindResolved { side: b.side, idx, result: r.map_err(|e| format!("{e:?}")) });
             });
